@@ -280,6 +280,38 @@ GROUPS = {
              .replace("{HOK}", "").replace("{HEOK}", "skip")),
         ],
     },
+    "throttle": {
+        "import": "Haiway.Bridge.Throttle", "open": "Haiway Haiway.MiniPy Haiway.Bridge.Throttle",
+        "defs": {
+            name: Target("src/haiway/helpers/throttling.py", "_AsyncThrottle", "__call__", ["args", "kwargs"],
+                         {"_entries": 1, "_limit": 2, "_period": 3}, {("self", "_function"): (204, ["$args", "$kwargs"])},
+                         ext_functions={"monotonic": (202, []), "sleep": (203, ["@0"])}, containers={"self._entries"},
+                         with_externals={"self._lock": (200, 201)}, part="locked_loop." + part)
+            for name, part in (("gPre", "pre"), ("gStep", "step"), ("gPost", "post"), ("gTail", "tail"))
+        },
+        "obligations": [
+            ("throttle_pre", ["gPre"], "PreOK {gPre.time_now} gPre", "intro s; unfold gPre; throttle_eval"),
+            ("throttle_tail", ["gTail"], "TailOK gTail", "intro s; unfold gTail\n  cases hf : s.world.fnOut <;> throttle_eval"),
+            ("throttle_step", ["gStep"], "CleanStep {gStep.time_now} gStep",
+             "intro s es P now h1 h3 hn\n  unfold gStep\n  cases es with\n"
+             "  | nil => refine ⟨?_, ?_⟩ <;> throttle_eval\n"
+             "  | cons e rest =>\n    by_cases hle : e + P ≤ now\n"
+             "    · have hle' : ((e : Int) + (P : Int) ≤ (now : Int)) := by omega\n      refine ⟨?_, ?_⟩ <;> throttle_eval\n"
+             "    · have hle' : ¬ ((e : Int) + (P : Int) ≤ (now : Int)) := by omega\n      refine ⟨?_, ?_⟩ <;> throttle_eval"),
+            ("throttle_post", ["gPost"], "PostOK {gPost.time_now} gPost",
+             "intro s es limit P now hl h1 h2 h3 hn hc\n  unfold gPost\n  by_cases hfull : limit ≤ es.length\n"
+             "  · have hfull' : ((limit : Int) ≤ (es.length : Int)) := by omega\n    cases es with\n"
+             "    | nil => simp at hfull; omega\n    | cons e rest =>\n"
+             "      have hfull'' : ((limit : Int) ≤ (rest.length : Int) + 1) := by simp only [List.length_cons] at hfull; omega\n"
+             "      have hfull3 : limit ≤ rest.length + 1 := by simpa using hfull\n"
+             "      have hfull4 : ¬ (rest.length + 1 < limit) := by omega\n"
+             "      have ht : ((e : Int) + (P : Int)).toNat = e + P := by omega\n"
+             "      have hm : now + (e + P - now) = max now (e + P) := by omega\n      throttle_eval\n"
+             "  · have hfull' : ¬ ((limit : Int) ≤ (es.length : Int)) := by omega\n    throttle_eval"),
+            ("throttle_refines", ["gPre", "gStep", "gPost", "gTail"], "CriticalRefines (assemble gPre gStep gPost gTail)",
+             "exact critical_of_parts throttle_pre throttle_step throttle_post throttle_tail"),
+        ],
+    },
     "queue": {
         "import": "Haiway.Bridge.Queue", "open": "Haiway.MiniPy Haiway.Bridge.Queue",
         "defs": {
